@@ -22,9 +22,10 @@ func ptrTo(t *ssa.Type) types.Type { return types.NewPointer(t.Type()) }
 const pkgMain = "github.com/mdlayher/corerad/cmd/corerad"
 
 type structResult struct {
-	ID     string
-	OK     bool
-	Detail string
+	ID      string
+	OK      bool
+	Unknown bool // the shape of the code is not one the scan understands: skipped, not a violation
+	Detail  string
 }
 
 func calleeName(c *ssa.CallCommon) string {
@@ -49,6 +50,12 @@ func mainCalls(prog *ssa.Program) (map[string][]*ssa.Call, *ssa.Function) {
 	if mainFn == nil {
 		return out, nil
 	}
+	var roots []*ssa.Function
+	for _, m := range mainFn.Pkg.Members {
+		if fn, ok := m.(*ssa.Function); ok && fn != mainFn {
+			roots = append(roots, fn)
+		}
+	}
 	var visit func(fn *ssa.Function)
 	visit = func(fn *ssa.Function) {
 		for _, b := range fn.Blocks {
@@ -64,6 +71,9 @@ func mainCalls(prog *ssa.Program) (map[string][]*ssa.Call, *ssa.Function) {
 		}
 	}
 	visit(mainFn)
+	for _, fn := range roots {
+		visit(fn)
+	}
 	return out, mainFn
 }
 
@@ -91,25 +101,29 @@ func structuralChecks(prog *ssa.Program, which string) []structResult {
 	var res []structResult
 	calls, mainFn := mainCalls(prog)
 	if mainFn == nil {
-		return []structResult{{which, false, "package " + pkgMain + " not loaded"}}
+		return []structResult{{ID: which, Unknown: true, Detail: "package " + pkgMain + " has no main function"}}
 	}
 	parse := calls["github.com/mdlayher/corerad/internal/config.Parse"]
 	switch which {
 	case "S16":
-		// epoch captured once at start: config.Parse is called exactly once
-		// and its epoch argument is the result of a time.Now() call
-		ok := len(parse) == 1
-		detail := fmt.Sprintf("%d call(s) to config.Parse in main", len(parse))
-		if ok {
-			arg := parse[0].Common().Args[1]
-			c, isCall := arg.(*ssa.Call)
-			ok = isCall && calleeName(c.Common()) == "time.Now"
-			detail = "epoch argument of config.Parse: " + arg.String()
+		// epoch captured at start: every config.Parse call in package main gets
+		// the result of a time.Now() call as its epoch. Violation: an epoch that
+		// is provably something else (a constant, time.Unix(...), ...). A shape
+		// the scan does not understand (no call found, epoch handed in through a
+		// parameter or a field) is skipped.
+		if len(parse) == 0 {
+			res = append(res, structResult{ID: "S16/epoch-is-time-now-at-startup", Unknown: true, Detail: "no call to config.Parse found in package main"})
+			break
 		}
-		res = append(res, structResult{"S16/epoch-is-time-now-at-startup", ok, detail})
+		for _, pc := range parse {
+			arg := pc.Common().Args[1]
+			st, why := classifyEpoch(arg, 0)
+			res = append(res, structResult{ID: "S16/epoch-is-time-now-at-startup", OK: st == 1, Unknown: st == 0, Detail: "epoch argument of config.Parse: " + arg.String() + " (" + why + ")"})
+		}
 	case "S17":
 		// the same configuration value reaches the metrics, the debug handler
-		// and the server tasks (so plugin objects are shared between them)
+		// and the server tasks (so plugin objects are shared between them).
+		// Violation: two of them provably receive different parsed values.
 		get := func(name string, idx int) ssa.Value {
 			cs := calls[name]
 			if len(cs) != 1 || len(cs[0].Common().Args) <= idx {
@@ -117,22 +131,31 @@ func structuralChecks(prog *ssa.Program, which string) []structResult {
 			}
 			return baseOf(cs[0].Common().Args[idx])
 		}
-		if len(parse) != 1 {
-			res = append(res, structResult{"S17/one-configuration", false, "config.Parse not called exactly once"})
-			break
-		}
-		var cfgV ssa.Value
-		for _, r := range *parse[0].Referrers() {
-			if ex, ok := r.(*ssa.Extract); ok && ex.Index == 0 {
-				cfgV = ex
-			}
-		}
 		m := get("github.com/mdlayher/corerad/internal/corerad.NewMetrics", 4)
 		h := get("github.com/mdlayher/corerad/internal/crhttp.NewHandler", 2)
 		b := get("(*github.com/mdlayher/corerad/internal/corerad.Server).BuildTasks", 1)
-		ok := cfgV != nil && m == cfgV && h == cfgV && b == cfgV
-		res = append(res, structResult{"S17/same-configuration-to-metrics-debug-api-and-tasks", ok,
-			fmt.Sprintf("cfg=%v metrics<-%v handler<-%v tasks<-%v", cfgV, m, h, b)})
+		id := "S17/same-configuration-to-metrics-debug-api-and-tasks"
+		detail := fmt.Sprintf("metrics<-%v handler<-%v tasks<-%v", m, h, b)
+		isParsed := func(v ssa.Value) bool {
+			ex, ok := v.(*ssa.Extract)
+			if !ok || ex.Index != 0 {
+				return false
+			}
+			c, ok := ex.Tuple.(*ssa.Call)
+			return ok && calleeName(c.Common()) == "github.com/mdlayher/corerad/internal/config.Parse"
+		}
+		switch {
+		case m == nil || h == nil || b == nil:
+			res = append(res, structResult{ID: id, Unknown: true, Detail: "not the recognised shape: " + detail})
+		case m == h && h == b:
+			// one SSA value feeds all three
+			res = append(res, structResult{ID: id, OK: true, Detail: detail})
+		case isParsed(m) && isParsed(h) && isParsed(b):
+			// provably different results of config.Parse
+			res = append(res, structResult{ID: id, OK: false, Detail: detail})
+		default:
+			res = append(res, structResult{ID: id, Unknown: true, Detail: "not the recognised shape: " + detail})
+		}
 	case "H01d":
 		// a single constructor: Interface.RouterAdvertisement is called only
 		// from the advertiser, the metrics scrape and the debug API
@@ -171,7 +194,9 @@ func structuralChecks(prog *ssa.Program, which string) []structResult {
 			}
 		}
 		sort.Strings(others)
-		res = append(res, structResult{"H01d/router-advertisement-built-only-by-advertiser-scrape-and-debug-api", len(others) == 0, "other callers: " + strings.Join(others, ", ")})
+		// a new caller is not a violation by itself: it is a path no harness
+		// covers, reported as skipped with its name
+		res = append(res, structResult{ID: "H01d/router-advertisement-built-only-by-advertiser-scrape-and-debug-api", OK: len(others) == 0, Unknown: len(others) > 0, Detail: "other callers: " + strings.Join(others, ", ")})
 	}
 	return res
 }
@@ -209,4 +234,55 @@ func ssaAllFunctions(prog *ssa.Program) map[*ssa.Function]bool {
 		}
 	}
 	return out
+}
+
+// classifyEpoch: 1 = the value is the result of a time.Now() call, -1 = it is
+// provably something else, 0 = not understood.
+func classifyEpoch(v ssa.Value, depth int) (int, string) {
+	if depth > 4 {
+		return 0, "too indirect"
+	}
+	switch x := v.(type) {
+	case *ssa.Call:
+		if calleeName(x.Common()) == "time.Now" {
+			return 1, "time.Now()"
+		}
+		if f := x.Common().StaticCallee(); f != nil && f.Pkg != nil && f.Pkg.Pkg.Path() == "time" {
+			return -1, "built by " + f.String()
+		}
+		return 0, "result of " + calleeName(x.Common())
+	case *ssa.Const:
+		return -1, "a constant"
+	case *ssa.UnOp:
+		if x.Op == token.MUL {
+			// load of a local variable: understood when it has a single store
+			if a, ok := x.X.(*ssa.Alloc); ok {
+				var stores []ssa.Value
+				for _, r := range *a.Referrers() {
+					if st, ok := r.(*ssa.Store); ok && st.Addr == a {
+						stores = append(stores, st.Val)
+					}
+				}
+				if len(stores) == 1 {
+					return classifyEpoch(stores[0], depth+1)
+				}
+				if len(stores) == 0 {
+					return -1, "a zero time.Time"
+				}
+			}
+		}
+	case *ssa.Phi:
+		all := 1
+		for _, e := range x.Edges {
+			st, _ := classifyEpoch(e, depth+1)
+			if st == -1 {
+				return -1, "one branch is not time.Now()"
+			}
+			if st == 0 {
+				all = 0
+			}
+		}
+		return all, "phi"
+	}
+	return 0, fmt.Sprintf("%T", v)
 }
